@@ -64,7 +64,7 @@ class LinearCompuMethod(CompuMethod):
         if len(compu_scales) == 0:
             odxraise("LINEAR compu methods expect at least one compu scale within "
                      "COMPU-INTERNAL-TO-PHYS")
-            return cast(None, LinearCompuMethod)
+            return cast(LinearCompuMethod, None)
         elif len(compu_scales) > 1:
             odxraise("LINEAR compu methods expect at most one compu scale within "
                      "COMPU-INTERNAL-TO-PHYS")
